@@ -295,6 +295,11 @@ def _write_grid_vars(nc: Dataset, spec: dict[str, Any], G: dict[str, Any]) -> No
                       ("lon_rho", G["lon"]), ("lat_rho", G["lat"]), ("angle", np.zeros_like(G["h"]))):
         v = nc.createVariable(name, "f8", ("eta_rho", "xi_rho"))
         v[:] = arr
+    if spec.get("staggered_masks"):  # as real ROMS grid files have them: land masks at u-, v- and psi-points
+        M_ = G["mask"]
+        for name, arr, dims in (("mask_u", M_[:, :-1] * M_[:, 1:], ("eta_u", "xi_u")), ("mask_v", M_[:-1, :] * M_[1:, :], ("eta_v", "xi_v"))):
+            v = nc.createVariable(name, "f8", dims)
+            v[:] = arr
     v = nc.createVariable("hc", "f8", ())
     v[...] = G["hc"]
     v = nc.createVariable("Cs_r", "f8", ("s_rho",))
@@ -361,10 +366,15 @@ def write_world(dirpath: Path | str, spec: dict[str, Any]) -> dict[str, Any]:
                 nc.createDimension("s_w", N + 1)
             nc.createDimension("ocean_time", None)
             tv = nc.createVariable("ocean_time", "f8", ("ocean_time",))
-            tv.units = time_units
+            tu_, div_, ref_ = time_units, unit_div, ref
+            if spec.get("time_units_per_file"):  # every file with its own unit / reference time (files from different model runs)
+                tu_ = spec["time_units_per_file"][fi % len(spec["time_units_per_file"])]
+                div_ = {"seconds": 1.0, "hours": 3600.0, "days": 86400.0}[tu_.split()[0]]
+                ref_ = np.datetime64(tu_.split("since")[1].strip().replace(" ", "T"), "s")
+            tv.units = tu_
             sl = slice(start, start + cnt)
             abs_t = [(t0 + np.timedelta64(int(o), "s")) for o in offsets[sl]]
-            tv[:] = [float((t - ref) / np.timedelta64(1, "s")) / unit_div for t in abs_t]
+            tv[:] = [float((t - ref_) / np.timedelta64(1, "s")) / div_ for t in abs_t]
             for name, arr, dims in (
                 ("u", u[sl], ("ocean_time", "s_rho", "eta_u", "xi_u")),
                 ("v", v[sl], ("ocean_time", "s_rho", "eta_v", "xi_v")),
